@@ -498,3 +498,85 @@ Section Buffer.
     apply lex_loop_ok; auto. apply new_lexer_ok; auto.
   Qed.
 End Buffer.
+
+(* ---- the lexer is total: every byte string, every letter predicate ------------------------------- *)
+Lemma fix_newline_len b : length (fix_newline b) <= length b + 1.
+Proof.
+  unfold fix_newline. destruct b as [|c b]; [cbn; lia|].
+  destruct (last (c :: b) 0 =? 10)%N; [lia|]. rewrite app_length. cbn [length]. lia.
+Qed.
+
+Definition lex_ok (r : lex_out) : Prop :=
+  match r with LexOk _ | LexErr _ _ => True | LexInternal | LexDeep => False end.
+
+Lemma lex_total isld bs f : lex_fuel bs <= f -> lex_ok (lex_all isld f bs).
+Proof.
+  intro Hf. unfold lex_all, buffer, lex_ok.
+  pose proof (lex_all_B_ok isld (fix_newline bs) f) as H.
+  pose proof (fix_newline_len bs). unfold lex_fuel in Hf.
+  specialize (H ltac:(lia)).
+  destruct (lex_loop isld (fix_newline bs ++ [0%N; 0%N]) f _ _ []); auto.
+Qed.
+
+(* ParseData's own lexer start-up (newLexer) never fails internally either *)
+Lemma new_lexer_total isld bs f : lex_fuel bs <= f ->
+  match new_lexer isld (buffer bs) f with LTok _ _ | LErr _ => True | LInternal | LDeep => False end.
+Proof.
+  intro Hf. unfold buffer.
+  pose proof (new_lexer_ok isld (fix_newline bs) f) as H.
+  pose proof (fix_newline_len bs). unfold lex_fuel in Hf.
+  specialize (H ltac:(lia)).
+  destruct (new_lexer isld (fix_newline bs ++ [0%N; 0%N]) f); cbn in H; auto.
+Qed.
+
+(* ---- the recursion of nextToken is as deep as the run of skipped bytes is long --------------------- *)
+Lemma token_step_cr isld m rest st :
+  pos st < m -> unind st = 0 ->
+  token_step isld (repeat 13%N m ++ rest) st = ARec (set_pos st (S (pos st))).
+Proof.
+  intros Hk Hu.
+  assert (Hnth : nth_error (repeat 13%N m ++ rest) (pos st) = Some 13%N).
+  { rewrite nth_error_app1 by (rewrite repeat_length; lia). apply nth_error_repeat. lia. }
+  destruct (skipn_head _ _ _ Hnth) as (r & Hr).
+  unfold token_step. rewrite Hr. cbn [scan]. change (is_space 13) with false. cbv beta zeta iota.
+  rewrite Nat.add_0_r, Hu. change (0 <? 0) with false. cbv iota.
+  unfold byte_at. rewrite Hnth.
+  change (13 =? 114)%N with false. change (13 =? 102)%N with false. cbv iota.
+  change (negb (false || false) && ident_start 13) with false. cbv iota.
+  change (false || false) with false. cbv iota. rewrite Hnth. reflexivity.
+Qed.
+
+Lemma next_token_deep isld m rest f : forall st,
+  pos st + f <= m -> unind st = 0 -> next_token isld (repeat 13%N m ++ rest) f st = LDeep.
+Proof.
+  induction f as [|f IH]; intros st Hf Hu; [reflexivity|].
+  cbn [next_token]. rewrite token_step_cr by (auto; lia).
+  apply IH; cbn [pos set_pos unind]; auto; lia.
+Qed.
+
+Lemma parse_deep isld d : parse isld d (repeat 13%N (S d)) = PDeep.
+Proof.
+  unfold parse, buffer.
+  assert (Hb : exists rest, fix_newline (repeat 13%N (S d)) ++ [0%N; 0%N] = repeat 13%N (S d) ++ rest).
+  { unfold fix_newline. cbn [repeat]. destruct (last (13%N :: repeat 13%N d) 0 =? 10)%N; eauto.
+    rewrite <- app_assoc. eauto. }
+  destruct Hb as (rest & ->).
+  unfold new_lexer, lnext. rewrite next_token_deep by (cbn; lia).
+  unfold lex_gas. replace (3 * length (repeat 13%N (S d) ++ rest) + 4) with (S (3 * length (repeat 13%N (S d) ++ rest) + 3)) by lia.
+  reflexivity.
+Qed.
+
+(* ---- the property ---------------------------------------------------------------------------------- *)
+Definition outcome_ok (r : pres) : Prop :=
+  match r with POk _ _ | PSyn _ => True | PInternal | PDeep => False end.
+
+(* no stack depth is enough for every input *)
+Lemma no_depth_suffices :
+  ~ exists depth : nat, forall (isld : N -> bool) (bs : str), outcome_ok (parse isld depth bs).
+Proof.
+  intros (d & H). specialize (H (fun _ => false) (repeat 13%N (S d))).
+  rewrite parse_deep in H. exact H.
+Qed.
+
+Lemma deep_for_every_depth : forall isld depth, exists bs, length bs = S depth /\ parse isld depth bs = PDeep.
+Proof. intros isld d. exists (repeat 13%N (S d)). split; [apply repeat_length|apply parse_deep]. Qed.
